@@ -524,3 +524,64 @@ theorem installs_mmaps (mode : Mode) (rs : List Req) :
       · simp [List.reverse_append, munmapsOf_append, munmapsOf, h4]
 
 end Inj.Machine
+
+namespace Inj.Machine
+open Inj
+
+/-! ## reaching the fake (C01 at machine level) -/
+
+theorem run_add (m : Mem) (a b : Nat) (c : X86.Cpu) :
+    X86.run m (a + b) c = (X86.run m a c).bind (X86.run m b) := by
+  induction a generalizing c with
+  | zero => simp [X86.run]
+  | succ a ih =>
+    rw [Nat.succ_add]
+    simp only [X86.run]
+    cases X86.step m c with
+    | none => simp
+    | some c' => simp [ih]
+
+/-- only rip and rax may differ -/
+def SameButRax (c c' : X86.Cpu) : Prop :=
+  (∀ i, i ≠ 0 → c'.gpr i = c.gpr i) ∧ c'.xmm = c.xmm ∧ c'.flags = c.flags
+
+theorem install_reaches (mode : Mode) (s s1 : MState) (func fake jit : Nat)
+    (h : installX86 mode s func (Payload.exec fake) jit = some s1)
+    (hdis : ∀ x, (jit ≤ x ∧ x < jit + 4096) → ¬ (func ≤ x ∧ x < func + 12))
+    (hf : func < 18446744073709551616) (hj : jit < 18446744073709551616) (hk : fake < 18446744073709551616)
+    (c : X86.Cpu) (hc : c.rip = func) :
+    ∃ k c', k ≤ 4 ∧ X86.run s1.mem k c = some c' ∧ c'.rip = fake ∧ SameButRax c c' := by
+  obtain ⟨code, br, hcode, hbr, hmem, _, _, _⟩ := installX86_spec mode s s1 func (Payload.exec fake) jit h
+  have hcode' : X86.genBranch mode jit fake = Res.ok code := by
+    simp only [payloadCode] at hcode
+    cases hg : X86.genBranch mode jit fake with
+    | ok c' => rw [hg] at hcode; injection hcode with hcode; subst hcode; rfl
+    | panic w => rw [hg] at hcode; cases hcode
+  have hbl := X86.genBranch_len mode func jit br hbr
+  have hcl := X86.genBranch_len mode jit fake code hcode'
+  have hold1 : X86.Holds s1.mem func br := by
+    intro i hi
+    rw [hmem, writeMem_in _ _ _ _ (by omega) (by omega)]
+    congr 1; omega
+  have hold2 : X86.Holds s1.mem jit code := by
+    intro i hi
+    have hns := hdis (jit + i) ⟨by omega, by omega⟩
+    rw [hmem, writeMem_out _ _ _ _ (by omega)]
+    unfold afterJit
+    rw [writeMem_in _ _ _ _ (by omega) (by omega)]
+    congr 1; omega
+  have sameRefl : ∀ (c : X86.Cpu) (r : Nat), SameButRax c { c with rip := r } := fun c r => ⟨fun _ _ => rfl, rfl, rfl⟩
+  have sameSet : ∀ (c : X86.Cpu) (r v : Nat), SameButRax c { c with rip := r, gpr := X86.setReg c.gpr 0 v } :=
+    fun c r v => ⟨fun i hi => by simp [X86.setReg, hi], rfl, rfl⟩
+  have trans : ∀ (a b d : X86.Cpu), SameButRax a b → SameButRax b d → SameButRax a d :=
+    fun a b d h1 h2 => ⟨fun i hi => by rw [h2.1 i hi, h1.1 i hi], by rw [h2.2.1, h1.2.1], by rw [h2.2.2, h1.2.2]⟩
+  rcases X86.genBranch_run mode func jit br hf hj hbr s1.mem hold1 c hc with r1 | r1
+  · rcases X86.genBranch_run mode jit fake code hj hk hcode' s1.mem hold2 { c with rip := jit } rfl with r2 | r2
+    · exact ⟨1 + 1, _, by omega, by rw [run_add, r1]; exact r2, rfl, trans _ _ _ (sameRefl c jit) (sameRefl _ fake)⟩
+    · exact ⟨1 + 2, _, by omega, by rw [run_add, r1]; exact r2, rfl, trans _ _ _ (sameRefl c jit) (sameSet _ fake fake)⟩
+  · rcases X86.genBranch_run mode jit fake code hj hk hcode' s1.mem hold2
+        { c with rip := jit, gpr := X86.setReg c.gpr 0 jit } rfl with r2 | r2
+    · exact ⟨2 + 1, _, by omega, by rw [run_add, r1]; exact r2, rfl, trans _ _ _ (sameSet c jit jit) (sameRefl _ fake)⟩
+    · exact ⟨2 + 2, _, by omega, by rw [run_add, r1]; exact r2, rfl, trans _ _ _ (sameSet c jit jit) (sameSet _ fake fake)⟩
+
+end Inj.Machine
